@@ -1,4 +1,5 @@
 import DigModel.Proofs.Parse
+import DigModel.Proofs.Rollback
 /-
   C14 — Bad input yields errors, never panics.
 
@@ -12,8 +13,8 @@ import DigModel.Proofs.Parse
   * `C14_bad_options`: invalid options (name+group, backquotes, As(nil / non-pointer / pointer to non-interface))
     reject a Provide before anything is touched;
   * `C14_rejected_decorate`, `C14_rejected_invoke_parse`: a Decorate that is rejected, and an Invoke whose
-    signature is rejected, change nothing but graph holders (orphan value-group parameter nodes, which have
-    no incoming edge) — providers, decorators, caches, node tables, flags, logs are untouched;
+    signature is rejected, change nothing: the state afterwards equals the state before (the graph nodes of
+    value-group parameters added by the parse are rolled back — repairs of F15 and F16, `parse_rollback_eq`);
   * `C14_no_events`: no rejected registration executes user code (C03_passive).
   "Never panics" itself is a statement about the Go runtime: it is observed by the correspondence check
   (any panic escaping dig, any process failure is a violation with the program as replay) under a
@@ -39,16 +40,17 @@ theorem C14_bad_options (ctx : Ctx) (fn : Fn) (h : fn.nonfunc = none) (st : St) 
 
 theorem C14_rejected_decorate (ctx : Ctx) (fn : Fn) (st : St) (i s : Nat) (cb info : Bool)
     (h : ¬ ((apiDecorate ctx fn st i s cb info).2.v matches .ok)) :
-    GhOnly st (apiDecorate ctx fn st i s cb info).1 := by
+    (apiDecorate ctx fn st i s cb info).1 = st := by
   unfold apiDecorate at h ⊢
   cases hnf : fn.nonfunc with
-  | some _ => exact GhOnly.refl st
+  | some _ => rfl
   | none =>
     simp only [hnf] at h ⊢
-    have hp := ghOnly_parseParams ctx.env st s fn
+    have hp := parse_rollback_eq ctx.env st s fn
     cases hpp : parseParams ctx.env st s fn with
     | mk r w =>
       rw [hpp] at hp h
+      simp only at hp
       cases r with
       | error e => exact hp
       | ok params =>
@@ -67,15 +69,15 @@ theorem C14_rejected_decorate (ctx : Ctx) (fn : Fn) (st : St) (i s : Nat) (cb in
 
 theorem C14_rejected_invoke_parse (ctx : Ctx) (fn : Fn) (hnf : fn.nonfunc = none) (st : St) (s : Nat) (info : Bool) (e : DErr)
     (h : (parseParams ctx.env st s fn).1 = .error e) :
-    (apiInvoke ctx fn st s info).2.v = .err e ∧ GhOnly st (apiInvoke ctx fn st s info).1 ∧
+    (apiInvoke ctx fn st s info).2.v = .err e ∧ (apiInvoke ctx fn st s info).1 = st ∧
     (apiInvoke ctx fn st s info).2.ev = [] := by
   unfold apiInvoke
   simp only [hnf]
-  have hp := ghOnly_parseParams ctx.env st s fn
+  have hp := parse_rollback_eq ctx.env st s fn
   cases hpp : parseParams ctx.env st s fn with
   | mk r w =>
     rw [hpp] at hp h
-    simp only at h
+    simp only at h hp
     subst h
     exact ⟨rfl, hp, rfl⟩
 
